@@ -214,6 +214,20 @@ def run(chk):
     wl = ['fsewrite %d %s' % (al, ','.join(str(p) for p in probs)) for ms, ml, al, probs, d in cases]
     wr = zh_par('entropy', wl)
     nw = 0
+    # the writer model of the theorem C12_table_description_roundtrip, on the same distributions
+    wm = model_run('fsedesc', ['%d %s' % (al, ','.join(str(p) for p in probs)) for ms, ml, al, probs, d in cases])
+    nwd = 0
+    for (ms, ml, al, probs, d), r, m, ln in zip(cases, wr, wm, wl):
+        mw = m.split()
+        rw = r.split()
+        if len(mw) < 3 or mw[0] != 'ok' or len(rw) < 2 or rw[0] != 'ok' or mw[1] != rw[1]:
+            nwd += 1
+            if nwd == 1:
+                chk.tie_broken('correspondence:fse-writer', 'table description of model and implementation differ on %s: impl %s model %s' % (ln[:80], r[:80], m[:80]))
+        elif mw[2] != '1' or mw[3:] != [str(al), ','.join(str(p) for p in probs), str(len(rw[1]) // 2)]:
+            # the theorem's hypothesis or conclusion does not hold on an executed instance: model or proof is off
+            chk.tie_broken('model:fse-writer', 'the description model does not read back on %s: %s' % (ln[:80], m[:120]))
+    chk.cov['disagreements_checked'] += nwd
     for (ms, ml, al, probs, d), r, ln in zip(cases, wr, wl):
         w = r.split()
         if not w or w[0] != 'ok':
@@ -254,6 +268,34 @@ def run(chk):
         hl.append('fsenorm %d 1 %s' % (max_log, ','.join(str(c) for c in counts)))
     hr = zh_par('entropy', hl)
     nk = 0
+    # every distribution the real normaliser produced must meet the hypothesis of the description theorem
+    # ([dist_okb], evaluated in the model), be written identically by model and implementation, and read back
+    nl, nidx = [], []
+    for i, r in enumerate(hr):
+        w = r.split()
+        if w and w[0] == 'ok':
+            nl.append('%s %s' % (w[1], w[2])); nidx.append(i)
+    nm = model_run('fsedesc', nl)
+    nwr = zh_par('entropy', ['fsewrite ' + x for x in nl])
+    nbad = 0
+    for i, ln, m, r in zip(nidx, nl, nm, nwr):
+        mw, rw = m.split(), r.split()
+        if len(mw) >= 3 and mw[0] == 'ok' and mw[2] != '1':
+            if len(chk.violations) < 3:
+                chk.violation('the normaliser produced a distribution that is not normalised (model predicate dist_okb false): %s' % ln[:100],
+                              {'component': 'fse-normalise', 'input': hl[i], 'distribution': ln, 'how': 'echo "%s" | _build/cargo/release/zh entropy' % hl[i]})
+            continue
+        if len(mw) < 4 or mw[0] != 'ok' or len(rw) < 2 or rw[0] != 'ok' or mw[1] != rw[1]:
+            nbad += 1
+            if nbad == 1:
+                chk.tie_broken('correspondence:fse-writer', 'table description of model and implementation differ on the normalised distribution %s: impl %s model %s' % (ln[:80], r[:80], m[:80]))
+        elif mw[3:5] != ln.split():
+            if len(chk.violations) < 3:
+                chk.violation('a normalised distribution written by the compressor does not read back: %s -> %s' % (ln[:80], ' '.join(mw[3:])[:80]),
+                              {'component': 'fse-writer', 'input': 'fsewrite ' + ln, 'how': 'echo "fsewrite %s" | _build/cargo/release/zh entropy' % ln})
+    chk.cov['disagreements_checked'] += nbad
+    chk.cov['components']['fse-normalised-descriptions'] = {'evaluations': len(nl)}
+    chk.cov['evaluations'] += len(nl)
     for (max_log, counts), r, ln in zip(hists, hr, hl):
         only_zero = len(counts) == 1
         w = r.split()
